@@ -77,4 +77,4 @@ static void run() {
         set_current(c); std::string m = oracle(c); if (!m.empty()) VF_FAIL(c, m);
     });
 }
-int main(int argc, char** argv) { return worker_main(argc, argv, "C14", Hooks{run, [](const Case& c) { setup(); return oracle(c); }}); }
+int main(int argc, char** argv) { W().case_timeout_s = 60; /* C14: every call terminates - a case that takes a minute (normal: microseconds) is dumped and re-run alone by the driver */ return worker_main(argc, argv, "C14", Hooks{run, [](const Case& c) { setup(); return oracle(c); }}); }
